@@ -197,5 +197,5 @@ CATALOGUE = [
     E("C19", "dispatch key misspelt", "break", EVA, "    names.PERSONNEL: _personnel_rule,", '    "personel": _personnel_rule,', "R2"),
     E("C19", "para content concatenated unguarded", "break", EVA, "        if para.content:\n            content += '\\n' + para.content", "        content += '\\n' + para.content", "R1"),
     E("C19", "twin: threshold written the other way round", "twin", EVA, "            if length < 5:", "            if 5 > length:"),
-    E("C19", "twin: or-empty instead of the guard", "twin", EVA, "        if para.content:\n            content += '\\n' + para.content", "        content += '\\n' + (para.content or '')"),
+    E("C19", "twin: conditional expression instead of the guard", "twin", EVA, "        if para.content:\n            content += '\\n' + para.content", "        content += ('\\n' + para.content) if para.content else ''"),
 ]
